@@ -1,4 +1,7 @@
 import Proofs.Machine.ColorOnlyText
+import Proofs.Machine.ColorOnlyCombined
+import Proofs.Machine.ColorOnlyPlain
+import Proofs.Machine.ColorOnlyTextAny
 /-!
 C02 — `--color-only` is a line-for-line, text-preserving filter.
 
@@ -13,8 +16,12 @@ every configuration in that normal form and every git input in which each `@@` l
 by a line of its hunk, the rows written carry the input indices `0, 1, …, n-1` — one row per
 line, in order. The hypothesis is necessary (`dangling_hunk_header_dropped`): delta writes a hunk
 header when the next line of the hunk arrives, so a hunk header that is the last line of the input
-(or is followed by another header) is never written; git does not produce such input. Plain
-`diff -u` input is excluded (known finding `plain-diff-plusplus-body`).
+(or is followed by another header) is never written; git does not produce such input.
+
+Second part of the file (session 3): the text theorem for *combined* diffs (`diff --cc`, `@@@ … @@@`
+hunks, any number of parents, conflict-marker lines included: `Proofs/Machine/ColorOnlyCombined.lean`)
+and both theorems for *plain* `diff -u` input, where the minus-line counter decides whether a `--- `
+line is a file header or a removed line (`Proofs/Machine/ColorOnlyPlain.lean`).
 -/
 set_option linter.unusedSimpArgs false
 namespace C02
@@ -186,5 +193,162 @@ theorem tab_width_changes_text :
     (match run { presetCfg with tab := 4 } (["diff --git a/x b/x", "--- a/x", "+++ b/x", "@@ -1 +1 @@", "+a\tb"].map mkL) with
      | .ok m => m.out.map (·.text) == (["diff --git a/x b/x", "--- a/x", "+++ b/x", "@@ -1 +1 @@", "+a\tb"].map String.toList)
      | .error _ => true) = false := by decide
+
+-- combined diffs -----------------------------------------------------------------------------
+
+/-- **`color_only_text_preserved_combined`** (whole runs; presets in force; git input, unified *and*
+combined diffs with any number of parents). In color-only mode `handle_merge_conflict_line` is off, so
+conflict-marker lines (`++<<<<<<<` …) are ordinary hunk lines. A hunk line of a combined diff is
+painted as *prefix columns ++ rest*; the two halves are cut at the same place exactly when the prefix
+columns are ASCII. Hypotheses, for a bound `N` on the number of parents: `AtB N` — no line starts
+with more than `N + 1` characters `@`; `ColsOK N` — if the first `N` bytes of a line contain a `+` or
+a `-`, they are ASCII (git writes only `+`, `-` and blanks there). Conclusion: every row of the output
+carries the raw line or the visible text of the input line it is stamped with; with
+`color_only_line_for_line` (which already covers combined diffs): output line `i` shows input line `i`. -/
+theorem color_only_text_preserved_combined {cfg : Cfg} (ps : Preset cfg) (N : Nat) {d : L} {ls : List L} {m : M}
+    (hd : detectSource d.text = .gitDiff)
+    (hl : ∀ l ∈ d :: ls, l.grep ≠ 2 ∧ AtB N l = true ∧ ColsOK N l = true)
+    (hf : Followed false (d :: ls)) (e : run cfg (d :: ls) = .ok m) :
+    ∀ r ∈ m.out, ∃ l, (d :: ls)[r.src]? = some l ∧ (r.text = l.raw ∨ r.text = l.text) :=
+  run_color_only_text_combined ps N hd hl hf e
+
+/-- **two parents** (ordinary merges: no hunk header has more than three `@`): nothing is assumed
+about the prefix columns — a non-ASCII character takes at least two bytes, so a two-byte prefix that
+contains one contains neither `+` nor `-` and the line is passed through raw. -/
+theorem color_only_text_preserved_two_parents {cfg : Cfg} (ps : Preset cfg) {d : L} {ls : List L} {m : M}
+    (hd : detectSource d.text = .gitDiff) (hl : ∀ l ∈ d :: ls, l.grep ≠ 2 ∧ AtB 2 l = true)
+    (hf : Followed false (d :: ls)) (e : run cfg (d :: ls) = .ok m) :
+    ∀ r ∈ m.out, ∃ l, (d :: ls)[r.src]? = some l ∧ (r.text = l.raw ∨ r.text = l.text) :=
+  run_color_only_text_two_parents ps hd hl hf e
+
+/-- a two-parent merge with a conflict region, non-ASCII text, an empty line, followed by a unified section -/
+def mergeDiff : List L :=
+  ["diff --cc x", "index 1,2..3", "--- a/x", "+++ b/x", "@@@ -1,3 -1,3 +1,9 @@@ fn f()", "  ctx", "- old", " -older",
+   "++<<<<<<< HEAD", " +ours é", "++||||||| base", "++anc", "++=======", "+ théirs", "++>>>>>>> topic", "",
+   "diff --git a/y b/y", "--- a/y", "+++ b/y", "@@ -1 +1 @@", "-p", "+q"].map mkL
+
+example : detectSource (mkL "diff --cc x").text = .gitDiff := by decide
+example : ∀ l ∈ mergeDiff, l.grep ≠ 2 ∧ AtB 2 l = true := by decide
+example : Followed false mergeDiff := Followed_of_B _ _ (by decide)
+/-- what the two theorems say there: 22 rows stamped 0 … 21, each with the text of its line -/
+example : (match run presetCfg mergeDiff with
+    | .ok m => m.out.map (·.src) == List.range 22 && m.out.map (·.text) == mergeDiff.map (·.raw)
+    | .error _ => false) = true := by decide
+
+/-- three parents, second prefix column not ASCII (not something git writes) -/
+def octopus : List L := ["diff --cc x", "@@@@ -1 -1 -1 +1,2 @@@@", "   ctx", "+éab"].map mkL
+
+example : ∀ l ∈ octopus, AtB 3 l = true := by decide
+example : ¬ ∀ l ∈ octopus, ColsOK 3 l = true := by decide
+example : ∀ l ∈ octopus, ColsOK 2 l = true := by decide
+example : ¬ ∀ l ∈ octopus, AtB 2 l = true := by decide
+
+/-- both hypotheses are needed (with `N = 3` only `ColsOK` fails, with `N = 2` only `AtB`): the line
+`+éab` comes out as `+éb`. Prefix = the whole characters within 3 bytes = `+é`; then 3 *columns* are
+removed from the line (`+`, `é`, `a`) instead of 2. Same on the binary. -/
+theorem prefix_columns_needed :
+    (match run presetCfg octopus with
+     | .ok m => m.out.map (·.text)
+     | .error _ => []) = ["diff --cc x", "@@@@ -1 -1 -1 +1,2 @@@@", "   ctx", "+éb"].map String.toList := by decide
+
+-- plain `diff -u` ------------------------------------------------------------------------------
+
+/-- **`color_only_line_for_line_plain`** (whole runs; normal form + presets; first line identifies a
+plain `diff -u`: `--- a`, `diff -u a b`, `diff -ru …`, `Only in …`). Hypothesis `trueLengths`: the
+input is made of header lines and of hunks `@@ -x,a +y,b @@` whose bodies have exactly `a` old-file
+lines (`-`, blank) and `b` new-file lines (`+`, blank), `\ No newline` lines being free; outside
+hunks a line that starts with `-` is a `--- ` header and no line starts with a blank. Then the
+minus-line counter is, at every line, the number of old-file lines still to come in the hunk, a line
+`--- x` inside a hunk is read as the removed line `-- x` (also as the first line of the hunk), after
+the hunk as a file header; and delta writes exactly one row per input line, in input order. -/
+theorem color_only_line_for_line_plain {cfg : Cfg} (ps : Preset cfg) {d : L} {ls : List L} {m : M}
+    (hd : detectSource d.text = .diffUnified) (hl : ∀ l ∈ d :: ls, l.grep ≠ 2 ∧ NotCombined l)
+    (ht : trueLengths none (d :: ls) = true) (e : run cfg (d :: ls) = .ok m) :
+    m.out.map (·.src) = List.range (ls.length + 1) :=
+  (run_color_only_plain_true_lengths ps hd hl ht e).1
+
+/-- **`color_only_text_preserved_plain`**: … and every row carries the raw line or the visible text of
+the input line it is stamped with. -/
+theorem color_only_text_preserved_plain {cfg : Cfg} (ps : Preset cfg) {d : L} {ls : List L} {m : M}
+    (hd : detectSource d.text = .diffUnified) (hl : ∀ l ∈ d :: ls, l.grep ≠ 2 ∧ NotCombined l)
+    (ht : trueLengths none (d :: ls) = true) (e : run cfg (d :: ls) = .ok m) :
+    ∀ r ∈ m.out, ∃ l, (d :: ls)[r.src]? = some l ∧ (r.text = l.raw ∨ r.text = l.text) :=
+  (run_color_only_plain_true_lengths ps hd hl ht e).2
+
+/-- **no assumption on the hunk lengths**: both conclusions hold for every plain diff in which each
+`@@` line is followed by a hunk-body line that does not start with `--- ` (`FollowedD`). Whether a
+later `--- ` line is read as a header or as a removed line, it yields one row with its text; the only
+place where the reading matters is directly after a hunk header, whose row is written lazily. -/
+theorem color_only_plain_any_lengths {cfg : Cfg} (ps : Preset cfg) {d : L} {ls : List L} {m : M}
+    (hd : detectSource d.text = .diffUnified) (hl : ∀ l ∈ d :: ls, l.grep ≠ 2 ∧ NotCombined l)
+    (hf : FollowedD false (d :: ls)) (e : run cfg (d :: ls) = .ok m) :
+    m.out.map (·.src) = List.range (ls.length + 1) ∧
+      ∀ r ∈ m.out, ∃ l, (d :: ls)[r.src]? = some l ∧ (r.text = l.raw ∨ r.text = l.text) :=
+  run_color_only_plain ps hd hl hf e
+
+/-- `diff -u` of two pairs of files, concatenated; the first hunk *starts* with the removed line `-- x`
+(input line `--- x`) and contains the added line `++ y` (input line `+++ y`) -/
+def plainDiff : List L :=
+  ["--- a/q.lua", "+++ b/q.lua", "@@ -1,3 +1,3 @@", "--- x", " ctx", "-old", "+new", "+++ y",
+   "--- c.txt", "+++ d.txt", "@@ -5 +5,2 @@", " k", "+added", "\\ No newline at end of file"].map mkL
+
+example : detectSource (mkL "--- a/q.lua").text = .diffUnified := by decide
+example : ∀ l ∈ plainDiff, l.grep ≠ 2 ∧ NotCombined l := by decide
+example : trueLengths none plainDiff = true := by decide
+/-- (the hypothesis of `color_only_plain_any_lengths` is not met here: a hunk starts with `--- x`) -/
+example : followedDB false plainDiff = false := by decide
+/-- what the theorems say there: 14 rows stamped 0 … 13 with the text of their lines; `--- x` is shown
+as a removed line, `--- c.txt` as a header -/
+example : (match run presetCfg plainDiff with
+    | .ok m => m.out.map (·.src) == List.range 14 && m.out.map (·.text) == plainDiff.map (·.raw)
+        && m.out.map (·.kind) == [.raw, .raw, .raw, .minus, .zero, .minus, .plus, .plus, .raw, .raw, .raw, .zero, .plus, .other]
+    | .error _ => false) = true := by decide
+
+/-- a hunk header that announces no old-file line, followed by a `--- ` line -/
+def lyingHeader : List L := ["--- a", "+++ b", "@@ -0,0 +1 @@", "--- x"].map mkL
+
+example : trueLengths none lyingHeader = false := by decide
+example : followedDB false lyingHeader = false := by decide
+
+/-- the hypothesis is needed: when the announced old-file length is wrong (0 here), the `--- x` line
+is taken for a file header and the pending hunk-header line is never written. Same on the binary;
+`diff` does not produce such input. -/
+theorem hunk_header_lost_when_lengths_lie :
+    (match run presetCfg lyingHeader with
+     | .ok m => m.out.map (·.src)
+     | .error _ => []) = [0, 1, 3] := by decide
+
+-- the text statement for every input ---------------------------------------------------------------
+
+/-- **`color_only_text_preserved_any`** (whole runs; presets in force; *every* input — git or plain
+diff, unified or combined, something else, malformed; no hypothesis on its shape, none on the first
+line): if no line starts with more than `N + 1` characters `@` and the first `N` bytes of every line,
+when they contain a `+` or a `-`, are ASCII, every row of delta's output carries the raw line or the
+visible text of the input line it is stamped with. The shape hypotheses of the line-for-line theorems
+(`Followed`, `trueLengths`, no rg-json bookkeeping record) decide *whether* a line gets its row; what a
+row carries does not depend on them (`Proofs/Machine/ColorOnlyTextAny.lean`). -/
+theorem color_only_text_preserved_any {cfg : Cfg} (ps : Preset cfg) (N : Nat) {ls : List L} {m : M}
+    (hl : ∀ l ∈ ls, AtB N l = true ∧ ColsOK N l = true) (e : run cfg ls = .ok m) :
+    ∀ r ∈ m.out, ∃ l, ls[r.src]? = some l ∧ (r.text = l.raw ∨ r.text = l.text) :=
+  run_color_only_text_any ps N hl e
+
+/-- … and with at most three `@` at the start of any line (unified diffs, two-parent merges) nothing
+at all is assumed about the lines. -/
+theorem color_only_text_preserved_any_two {cfg : Cfg} (ps : Preset cfg) {ls : List L} {m : M}
+    (hl : ∀ l ∈ ls, AtB 2 l = true) (e : run cfg ls = .ok m) :
+    ∀ r ∈ m.out, ∃ l, ls[r.src]? = some l ∧ (r.text = l.raw ∨ r.text = l.text) :=
+  run_color_only_text_any_two ps hl e
+
+/-- text before any diff, a plain-diff section whose hunk header is followed by a `diff` line, a
+combined section, a hunk header at the very end -/
+def oddInput : List L :=
+  ["see below", "--- a", "+++ b", "@@ -1 +1 @@", "diff --cc x", "@@@ -1 -1 +1,2 @@@", "++é\tz", " -w", "@@ -1 +1 @@"].map mkL
+
+example : ∀ l ∈ oddInput, AtB 2 l = true := by decide
+/-- the two dangling hunk headers (lines 3 and 8) have no row; every row that is there shows its line -/
+example : (match run presetCfg oddInput with
+    | .ok m => m.out.map (·.src) == [0, 1, 2, 4, 5, 6, 7] &&
+        m.out.all (fun r => oddInput[r.src]?.map (·.raw) == some r.text)
+    | .error _ => false) = true := by decide
 
 end C02
